@@ -1,6 +1,145 @@
 import YaegiVerif.Common.Sexp
-/- Line-protocol front end for C03 (glue). Placeholder until the property's model exists. -/
+import YaegiVerif.Model.Const
+import YaegiVerif.Model.ConstEval
+import YaegiVerif.Model.ConstDecl
+import YaegiVerif.Spec.GoConst
+import YaegiVerif.Model.ConstClass
+import YaegiVerif.Generated.C03
+/- Line-protocol front end for C03 (glue, not a proof obligation).
+   repr KIND INT            → y=<true|false> g=<true|false> gap=<0|1> fix=<true|false>
+   decl CTX TYPE EXPR       → y=<outcome> g=<outcome> cls=<class>      CTX ∈ var const varT constT, TYPE = - or a basic type
+   block (SPEC…)            → same; SPEC = (spec TYPE EXPR) | (spec -)  (implicit repetition)
+   EXPR = (int N) (rune N) (flt NUM DEN) (bool 0|1) (str HEX) (iota) (un ACT X) (bin ACT X Y) (conv TYPE X) (par X) (len X)
+   outcome = ok:<v>:<type>[,<v>:<type>…] | reject | crash | ?   with v = i<int> | f<num>/<den> | b<bool> | s<hex>
+-/
 namespace YaegiVerif.Driver.C03
-open YaegiVerif
-def handle (_args : List Sexp) : String := "unimplemented"
+open YaegiVerif YaegiVerif.Const
+
+def actOf (s : String) : Act :=
+  match s with
+  | "add" => .add | "sub" => .sub | "mul" => .mul | "quo" => .quo | "rem" => .rem | "and" => .and | "or" => .or
+  | "xor" => .xor | "andNot" => .andNot | "shl" => .shl | "shr" => .shr | "neg" => .neg | "pos" => .pos
+  | "bitNot" => .bitNot | "not" => .not | "eq" => .eq | "ne" => .ne | "lt" => .lt | "le" => .le | "gt" => .gt
+  | "ge" => .ge | "land" => .land | "lor" => .lor | _ => .other
+
+def hexVal (c : Char) : Nat :=
+  if '0' ≤ c ∧ c ≤ '9' then c.toNat - '0'.toNat
+  else if 'a' ≤ c ∧ c ≤ 'f' then c.toNat - 'a'.toNat + 10 else 0
+
+def unhex : List Char → List Nat
+  | a :: b :: rest => (hexVal a * 16 + hexVal b) :: unhex rest
+  | _ => []
+
+def hexDigit (n : Nat) : Char := if n < 10 then Char.ofNat (48 + n) else Char.ofNat (87 + n)
+def hex (bs : List Nat) : String := String.ofList (bs.flatMap fun b => [hexDigit (b / 16), hexDigit (b % 16)])
+
+partial def parseExpr (s : Sexp) : Option CExpr :=
+  match s with
+  | .list [.atom "int", v] => v.int?.map CExpr.int
+  | .list [.atom "rune", v] => v.int?.map CExpr.rune
+  | .list [.atom "flt", n, d] => do
+      let n ← n.int?
+      let d ← d.nat?
+      some (CExpr.flt (Q.norm n d))
+  | .list [.atom "bool", b] => b.bool?.map CExpr.bool
+  | .list [.atom "str", .atom h] => some (CExpr.str (unhex (if h == "-" then [] else h.toList)))
+  | .list [.atom "iota"] => some CExpr.iota
+  | .list [.atom "un", .atom a, x] => (parseExpr x).map (CExpr.un (actOf a))
+  | .list [.atom "bin", .atom a, x, y] => do
+      let x ← parseExpr x
+      let y ← parseExpr y
+      some (CExpr.bin (actOf a) x y)
+  | .list [.atom "conv", .atom t, x] => do
+      let t ← BT.ofName? t
+      let x ← parseExpr x
+      some (CExpr.conv t x)
+  | .list [.atom "par", x] => (parseExpr x).map CExpr.par
+  | .list [.atom "len", x] => (parseExpr x).map CExpr.len
+  | _ => none
+
+def showCV : CV → String
+  | .int v => s!"i{v}"
+  | .flt q => s!"f{q.num}/{q.den}"
+  | .bool b => s!"b{b}"
+  | .str s => "s" ++ hex s
+  | .unknown => "unknown"
+
+def showOne (r : CV × BT) : String := showCV r.1 ++ ":" ++ r.2.name
+
+def showOut : Out → String
+  | .ok vs => "ok:" ++ ",".intercalate (vs.map showOne)
+  | .reject => "reject"
+  | .crash => "crash"
+  | .rejectOrCrash => "reject|crash"
+  | .unm _ => "?"
+
+/-- outcome of the reference model for a list of declarations: any rejected one rejects the program -/
+def outGo (rs : List (Res (CV × BT))) : Out :=
+  if rs.any (fun r => match r with | .ok _ => false | _ => true) then .reject
+  else .ok (rs.filterMap fun r => match r with | .ok v => some v | _ => none)
+
+def facts : Facts := { repr := Generated.C03.reprFacts, eval := Generated.C03.evalFacts }
+
+def answer (y : Out) (g : List (Res (CV × BT))) (cls : String) : String :=
+  s!"y={showOut y} g={showOut (outGo g)} cls={cls}"
+
+/-- class of a block: the class of the first spec that has one; the block as a whole otherwise -/
+def classifyBlock (specs : List Spec) (y : Out) (g : List (Res (CV × BT))) : String :=
+  let stages := blockWalkY facts Generated.C03.declFacts { iota := 0, first := true, prev := none } specs
+  let resolved := Spec.resolveGo none specs
+  let rec go (i : Nat) (st : List Stage) (rs : List (Option (Option BT × CExpr)))
+      (gs : List (Res (CV × BT))) : String :=
+    match st, rs, gs with
+    | s :: st', some (t, e) :: rs', g1 :: gs' =>
+      let c := Class.classifyDecl facts .const i t e (combineY [s]) g1
+      if c != "-" then c else go (i + 1) st' rs' gs'
+    | _ :: st', none :: rs', _ :: gs' => go (i + 1) st' rs' gs'
+    | _, _, _ => "block-interplay"
+  let ys := showOut y
+  let gs := showOut (outGo g)
+  if ys == "reject|crash" then "const-reject-retry"
+  else if ys == gs then "-"
+  else match y with
+    | .unm w => "unmodelled:" ++ w
+    | _ => go 0 stages resolved g
+
+def parseType (s : Sexp) : Option (Option BT) :=
+  match s with
+  | .atom "-" => some none
+  | .atom t => (BT.ofName? t).map some
+  | _ => none
+
+def parseSpec (s : Sexp) : Option Spec :=
+  match s with
+  | .list [.atom "spec", _] => some .implicit
+  | .list [.atom "spec", t, e] => do
+      let t ← parseType t
+      let e ← parseExpr e
+      some (.explicit t e)
+  | _ => none
+
+def handle (args : List Sexp) : String :=
+  match args with
+  | [.atom "repr", .atom kind, v] =>
+    (match IKind.ofName? kind, v.int? with
+     | some k, some v =>
+       s!"y={reprY Generated.C03.reprFacts k v} g={Spec.reprGo k v} gap={if inSignedGap k v then 1 else 0} fix={reprFixed Generated.C03.reprFacts k v}"
+     | _, _ => "bad-op")
+  | [.atom "decl", .atom ctx, t, e] =>
+    (match parseType t, parseExpr e with
+     | some t, some e =>
+       let g := Spec.declGo 0 t e
+       let isVar := ctx == "var" || ctx == "varT"
+       let y := if isVar then outOfRes (varDeclY facts t e) else constDeclY facts t e
+       answer y [g] (Class.classifyDecl facts (if isVar then .var else .const) 0 t e y g)
+     | _, _ => "bad-op")
+  | [.atom "block", .list specs] =>
+    (match specs.mapM parseSpec with
+     | some ss =>
+       let y := blockY facts Generated.C03.declFacts ss
+       let g := Spec.blockGo ss
+       answer y g (classifyBlock ss y g)
+     | none => "bad-op")
+  | _ => "bad-op"
+
 end YaegiVerif.Driver.C03
